@@ -26,7 +26,95 @@ CONTRACTS = ["bytes", "varint", "oneof", "time"]
 
 
 def plan(tier, seed):
-    return plan_items(tier, seed, n_gen_quick=10, n_gen_thorough=300, n_quick=120, n_thorough=800) + [{"kind": "w0"}]
+    return plan_items(tier, seed, n_gen_quick=10, n_gen_thorough=300, n_quick=120, n_thorough=800) + [{"kind": "w0"}, {"kind": "directed"}]
+
+
+def run_directed() -> Result:
+    """shapes the tree generator does not produce: (a) long chains of a recursive message (every depth up to 120);
+    (b) ONE sub-message object referenced from several places of a message (two fields, twice in a list, two map values):
+    it must encode like equal but distinct objects; (c) a valid message decoded right after decodes that FAILED deep inside
+    a nested message (state left behind by a failure must not affect the next call)"""
+    from .. import corpus
+
+    res = Result()
+    b = corpus.build_item({"kind": "matrix"})
+    try:
+        Sub = b.bp_class(".vf.matrix.Sub")
+        Nested = b.bp_class(".vf.matrix.Nested")
+        w = {"kind": "directed"}
+
+        def chain(depth):
+            m = Sub(a=depth, s="leaf")
+            for d in range(depth - 1, 0, -1):
+                m = Sub(a=d, child=m)
+            return m
+
+        for depth in list(range(1, 30)) + [50, 64, 99, 100, 101, 110, 120]:
+            res.case(f"chain:{depth}")
+            res.note("roundtrips")
+            res.note("directed_chain_depths")
+            try:
+                m = chain(depth)
+                data = bytes(m)
+                back = Sub().parse(data)
+                n, x = 0, back
+                while betterproto_present(x):
+                    n, x = n + 1, x.child
+                if bytes(back) != data or n != depth - 1 or not (back == m):
+                    res.violation("roundtrip", ["recursive-chain", f"depth>{'100' if depth > 100 else '1'}", "differs"],
+                                  f"a chain of {depth} nested .vf.matrix.Sub messages came back with {n + 1} levels / other bytes", w)
+            except Exception as e:
+                res.violation("roundtrip", ["recursive-chain", f"depth>{'100' if depth > 100 else '1'}", "raised:" + type(e).__name__],
+                              f"a chain of {depth} nested .vf.matrix.Sub messages: {e!r}", w)
+        # (b) shared object
+        for label, mk in (
+            ("two-fields", lambda s: Nested(sub=s, subs=[s])),
+            ("twice-in-a-list", lambda s: Nested(subs=[s, s, s])),
+            ("two-map-values", lambda s: Nested(by_name={"a": s, "b": s})),
+            ("child-of-siblings", lambda s: Nested(subs=[Sub(a=1, child=s), Sub(a=2, child=s)])),
+        ):
+            res.case("shared:" + label)
+            res.note("roundtrips")
+            res.note("directed_shared_object_cases")
+            try:
+                shared = mk(Sub(a=7, s="shared", child=Sub(a=8)))
+                import copy as _c
+                distinct = mk(Sub(a=7, s="shared", child=Sub(a=8)))
+                distinct = Nested().parse(bytes(_c.deepcopy(distinct)))
+                got = bytes(shared)
+                if got != bytes(distinct) or bytes(Nested().parse(got)) != got:
+                    res.violation("roundtrip", ["shared-sub-message-object", label, "differs"],
+                                  f"one Sub object referenced {label}: {got.hex()[:120]} vs {bytes(distinct).hex()[:120]} for distinct equal objects", w)
+            except Exception as e:
+                res.violation("roundtrip", ["shared-sub-message-object", label, "raised:" + type(e).__name__],
+                              f"one Sub object referenced {label}: {e!r}", w)
+        # (c) failures first
+        good = bytes(Nested(sub=Sub(a=1, child=Sub(a=2, child=Sub(a=3, s="x")))))
+        deep_bad = bytes(chain(40))[:-3] + b"\xff\xff\xff"  # ends in an invalid string / truncated varint 40 levels down
+        for rep in range(6):
+            for _ in range(30):
+                try:
+                    Sub().parse(deep_bad)
+                except Exception:
+                    res.note("directed_failed_decodes")
+            res.case(f"after-failures:{rep}")
+            res.note("roundtrips")
+            try:
+                if bytes(Nested().parse(good)) != good:
+                    res.violation("roundtrip", ["after-failed-decodes", "valid-message", "differs"], "a valid message decodes differently after failed decodes", w)
+            except Exception as e:
+                res.violation("roundtrip", ["after-failed-decodes", "valid-message", "raised:" + type(e).__name__],
+                              f"a valid 4-level message raised {e!r} after {30 * (rep + 1)} failed decodes of other input in the same process", w)
+                break
+    finally:
+        b.cleanup()
+    return res
+
+
+def betterproto_present(x) -> bool:
+    import betterproto
+
+    return betterproto.serialized_on_wire(x.child)
 
 
 def isolate(b, mi, tree, pred):
@@ -174,6 +262,8 @@ def run_shard(shard):
         from ..w0 import run_w0
 
         return run_w0(PROP, CONTRACTS)
+    if shard.get("kind") == "directed":
+        return run_directed()
     return run_value_shard(shard, PROP, check_case, CONTRACTS)
 
 
@@ -182,4 +272,6 @@ def replay(w):
         from ..w0 import run_w0
 
         return run_w0(PROP, CONTRACTS).violations
+    if w.get("kind") == "directed":
+        return run_directed().violations
     return replay_value(w, check_case, PROP, CONTRACTS)
